@@ -37,12 +37,13 @@ def _protected_names() -> set:
     rd = os.path.join(here, 'rules')
     files += [os.path.join(rd, x) for x in os.listdir(rd) if x.endswith('.py')]
     files.append(os.path.join(here, 'reference', 'tables_ref.py'))
+    files.append(os.path.join(here, 'reference', 'tables_ref_b.py'))
     for p in files:
         try:
             src = open(p, encoding='utf-8').read()
         except OSError:
             continue
-        for m in re.finditer(r"['\"]([A-Za-z_][A-Za-z0-9_.]*)['\"]", src):
+        for m in (re.finditer(r"['\"]([A-Za-z_][A-Za-z0-9_.]*)['\"]", src) if not p.endswith('tables_ref_b.py') else ()):
             parts = m.group(1).split('.')
             if len(parts) >= 2 and parts[0][:1].isupper() and parts[1].startswith('_') \
                     and not parts[1].startswith('__'):
@@ -54,6 +55,17 @@ def _protected_names() -> set:
                 continue
             for part in parts:
                 names.add(part)
+        if p.endswith('tables_ref_b.py'):
+            # tier B compares functions as transcribed: what they call stays a call on both sides
+            import ast as _ast
+            for x in _ast.walk(_ast.parse(src)):
+                if isinstance(x, _ast.Call):
+                    if isinstance(x.func, _ast.Name):
+                        names.add(x.func.id)
+                    elif isinstance(x.func, _ast.Attribute) and isinstance(x.func.value, _ast.Name) \
+                            and x.func.value.id in ('self', 'cls'):
+                        names.add(x.func.attr)
+            continue
         if p.endswith('tables_ref.py'):
             # the reference tables name the helpers they leave uninterpreted: every function / method they
             # define or call
